@@ -47,6 +47,16 @@ def _load_seeded():
             except Exception:
                 continue
             REGISTRY.append((prop, 'seed', d, pd, None, None, None))
+    bdir = SEEDED + '_benign'
+    if os.path.isdir(bdir):
+        for d in sorted(os.listdir(bdir)):
+            pd, mj = os.path.join(bdir, d, 'patch.diff'), os.path.join(bdir, d, 'meta.json')
+            if os.path.isfile(pd) and os.path.isfile(mj):
+                try:
+                    prop = json.load(open(mj))['property']
+                except Exception:
+                    continue
+                REGISTRY.append((prop, 'benign-seed', d, pd, None, None, None))
 
 
 def apply_unified(patch_text, read):
@@ -136,7 +146,7 @@ def _one_inner(case):
     prop, kind, name, file, old, new, rule = case
     overlay = {}
     base = SourceTree()
-    if kind == 'seed':
+    if kind in ('seed', 'benign-seed'):
         try:
             overlay = apply_unified(open(file).read(), base.text)
         except Exception as e:
@@ -163,6 +173,12 @@ def _one_inner(case):
     from .core import load_known, match_known
     known = load_known(prop)
     failing = [o for o in ctx.obs if not o.ok and match_known(o, known) is None]
+    if kind == 'benign-seed':
+        if failing:
+            return (prop, kind, name, 'FALSE-ALARM', '%s @ %s: %s' % (failing[0].rule, failing[0].locator, failing[0].desc))
+        if err:
+            return (prop, kind, name, 'LEAVES-VOCABULARY', err.splitlines()[0][:300])
+        return (prop, kind, name, 'ok', 'silent')
     if kind == 'seed':
         if failing:
             return (prop, kind, name, 'ok', '%s @ %s' % (failing[0].rule, failing[0].locator))
@@ -194,13 +210,19 @@ def run_for(prop, jobs=None):
     if cases:
         with ProcessPoolExecutor(max_workers=jobs or min(16, len(cases))) as ex:
             res = list(ex.map(_one, cases))
-    out = {'mutants': 0, 'mutants_detected': 0, 'benign_twins': 0, 'benign_silent': 0, 'seeded_changes': 0, 'seeded_detected': 0, 'stale': 0, 'failures': [], 'results': []}
+    out = {'mutants': 0, 'mutants_detected': 0, 'benign_twins': 0, 'benign_silent': 0, 'seeded_changes': 0, 'seeded_detected': 0, 'seeded_rewrites': 0, 'seeded_rewrites_silent': 0, 'stale': 0, 'failures': [], 'results': []}
     for prop_, kind, name, status, detail in res:
         out['results'].append({'kind': kind, 'name': name, 'status': status, 'detail': detail})
         if status == 'stale':
             out['stale'] += 1
             continue
-        if kind == 'seed':
+        if kind == 'benign-seed':
+            out['seeded_rewrites'] += 1
+            if status == 'ok':
+                out['seeded_rewrites_silent'] += 1
+            else:
+                out['failures'].append('behaviour-preserving rewrite %s: %s %s' % (name, status, detail))
+        elif kind == 'seed':
             out['seeded_changes'] += 1
             if status == 'ok':
                 out['seeded_detected'] += 1
